@@ -50,6 +50,14 @@ CHECKS.update({
          "n in {3,4}, every (t_A,t_B): per participant and own run every {A,B,absent} assignment of every round-one slot and, for each accepted one, every ({A,B} x addressee | absent) assignment of every round-two slot; part2/part3 acceptance must equal the independently computed predicate, accepted histories must yield internally consistent key material; for every common round-one set all participants complete with identical public packages and every t-subset signs.",
          "Honest senders only (malformed contributions are C08); the decomposition over participants is checked on the code in every run.", "DESIGN 4 C09"),
 })
+CHECKS.update({
+ "C13": ("model_checking", "crash-point (save/drop/restore) mask enumeration over five protocols on the real code; byte-equality with the uninterrupted execution",
+         "DKG, distributed refresh, dealer refresh, preprocessed signing and repair, each followed by a signing run: at every round boundary of every participant (secret packages, key/public packages, nonces, nonce batches) and for every message in transit the value may be encoded, dropped and decoded - through the types' own serialize/deserialize, JSON, or the component-wise custom-serialization route. Every mask with <= 2 crashes and the all-ones mask (thorough: every mask over the secret-state boundaries) must give byte-identical outputs at every later step.",
+         "Random sources are scripted per (participant, step) so both runs draw the same bytes.", "DESIGN 4 C13"),
+ "C14": ("fault_enumeration", "exhaustive single-deviation byte sweeps of every decoder and full-product hostile-input menus of every protocol entry point under catch_unwind with overflow checks and debug assertions",
+         "Decoders: every wire type x 3 paths x suite from a valid encoding: every truncation, extension, per-position substitutions and injected extreme length varints, degenerate inputs, every other suite's encodings into every decoder. Protocol steps: 14 entry-point groups with the full product of per-argument menus of well-typed hostile values (empty / huge / duplicated / inconsistent maps and lists, identity elements, zero scalars, empty and over-long commitments incl. u16-wrapping lengths, thresholds None/0/1/65535, 1 MiB messages). No call may unwind or hang.",
+         "One byte-level deviation per input; an allocation abort kills the process and is then reported by the check script.", "DESIGN 4 C14"),
+})
 NOT_APPLICABLE = {}
 
 def main():
